@@ -65,7 +65,7 @@ Proof. exact drive_roundtrip. Qed.
 (* YouTube: the canonical urls of users, channels by id and shorts (host www.youtube.com, path = template path
    followed by the field, no query, no fragment) parse back to the same record, for every field that is one clean
    path segment (not empty, no '/', no white space; for shorts a valid id of at most 11 characters).  Videos
-   (query-carried) and channels by name are decided by the harness (known finding F-X22 for reserved names). *)
+   (query-carried) are decided by the harness; channels by name: next theorem. *)
 Theorem C19_youtube_roundtrip : forall fix_ n,
   seg_clean n ->
   youtube_route fix_ yt_host (lit "/user/" ++ n) [] [] None = Ok (Some (mkrec "YoutubeUser" [None; Some n])) /\
@@ -76,6 +76,15 @@ Proof.
   intros fix_ n Hn.
   exact (conj (youtube_user_roundtrip fix_ n Hn) (conj (youtube_channel_id_roundtrip fix_ n Hn) (youtube_short_roundtrip fix_ n Hn))).
 Qed.
+
+(* channels by name (canonical url https://www.youtube.com/<name>): parse back when the name is one clean segment,
+   is not the page name 'watch' nor a reserved page name (known finding F-X22 otherwise) and does not start with '@'
+   (the parser strips it, so a record never holds one) *)
+Theorem C19_youtube_channel_name_roundtrip : forall fix_ n,
+  seg_clean n -> n <> lit "watch" -> mem_str n YOUTUBE_CHANNEL_NAME_BLACKLIST = false ->
+  (match n with 64%N :: _ => False | _ => True end) ->
+  youtube_route fix_ yt_host (47%N :: n) [] [] None = Ok (Some (mkrec "YoutubeChannel" [None; Some n])).
+Proof. exact youtube_channel_name_roundtrip. Qed.
 
 (* the truncated routes of the statement (and a well-formed url per platform, so that the above is not vacuous) *)
 Definition yt_trie : res hts := hts_build env0 YOUTUBE_DOMAINS hts_empty.
@@ -108,5 +117,6 @@ Print Assumptions C19_instagram_ids_valid.
 Print Assumptions C19_telegram_ids_valid.
 Print Assumptions C19_drive_roundtrip.
 Print Assumptions C19_youtube_roundtrip.
+Print Assumptions C19_youtube_channel_name_roundtrip.
 Print Assumptions C19_truncated_routes.
 Print Assumptions C19_wellformed_urls.
